@@ -413,7 +413,6 @@ def run(ctx, tier: str, seed: int) -> None:
 
 def _through_format_constraint_evaluation(ctx, instants: List[int], sdays: set, tier: str) -> Tuple[int, int]:
     """The same verdicts when the constraint is reached through the public expression API."""
-    import inject
     from ahbicht.content_evaluation.fc_evaluators import text_to_be_evaluated_by_format_constraint
     from ahbicht.content_evaluation.token_logic_provider import SingletonTokenLogicProvider
     from ahbicht.expressions.format_constraint_expression_evaluation import format_constraint_evaluation
